@@ -1,12 +1,14 @@
 package pd
 
 import (
+	"net"
 	"bytes"
 	"encoding/hex"
 	"testing"
 
 	"free5gclib/aper"
 	"free5gclib/nas"
+	"free5gclib/ngap"
 	"free5gclib/ngap/ngapType"
 
 	"verifh/refid"
@@ -132,6 +134,26 @@ func TestSelfIPText(t *testing.T) {
 	}
 	if got := refid.FormatIPv6Variant(unhex(t, "20010db8000000000000000000000001"), 1); got != "2001:0DB8:0000:0000:0000:0000:0000:0001" {
 		t.Fatalf("FormatIPv6Variant = %s", got)
+	}
+	for _, v := range []struct {
+		hex   string
+		style int
+		text  string
+	}{
+		{"00010002000300040005000600070000", 4, "1:2:3:4:5:6:7::"},
+		{"00000002000300040005000600070008", 5, "::2:3:4:5:6:7:8"},
+		{"00010000000300000000000600070008", 4, "1::3:0:0:6:7:8"},
+		{"00010000000300000000000600070008", 5, "1:0:3::6:7:8"},
+		{"00010002000300040005000600070008", 4, "1:2:3:4:5:6:7:8"},
+		{"00010002000300040005000601020304", 6, "1:2:3:4:5:6:1.2.3.4"},
+	} {
+		got := refid.FormatIPv6Variant(unhex(t, v.hex), v.style)
+		if got != v.text {
+			t.Fatalf("FormatIPv6Variant(%s,%d) = %s, want %s", v.hex, v.style, got, v.text)
+		}
+		if ip := net.ParseIP(got); ip == nil || !bytes.Equal(ip.To16(), unhex(t, v.hex)) {
+			t.Fatalf("FormatIPv6Variant(%s,%d) = %s is not read back by net.ParseIP: %v", v.hex, v.style, got, ip)
+		}
 	}
 	o, n := refid.TLA([]byte{1, 2, 3, 4}, unhex(t, "20010db8000000000000000000000001"))
 	if n != 160 || !bytes.Equal(o, unhex(t, "0102030420010db8000000000000000000000001")) {
@@ -304,5 +326,22 @@ func TestSelfTransferEncoding(t *testing.T) {
 	want = "000004" + "00820009" + "1403a352944000" + "0000" + "008b000a01f00ac8c86600000001" + "0086000100" + "0088000700010000091c00"
 	if err != nil || !bytes.Equal(b, unhex(t, want)) {
 		t.Fatalf("transfer encoding (%v):\n got %x\nwant %s", err, b, want)
+	}
+}
+
+// the hand-written NG SETUP FAILURE is what the library's decoder (the one ManageNGSetup uses) reads as such
+func TestSelfNGSetupFailure(t *testing.T) {
+	pdu, err := ngap.Decoder(append([]byte{}, ngSetupFailure...))
+	if err != nil || pdu.Present != ngapType.NGAPPDUPresentUnsuccessfulOutcome || pdu.UnsuccessfulOutcome.Value.NGSetupFailure == nil {
+		t.Fatalf("NG SETUP FAILURE: %v %+v", err, pdu)
+	}
+	ies := pdu.UnsuccessfulOutcome.Value.NGSetupFailure.ProtocolIEs.List
+	if len(ies) != 2 || ies[0].Value.Cause == nil || ies[0].Value.Cause.Present != ngapType.CausePresentMisc ||
+		ies[0].Value.Cause.Misc.Value != ngapType.CauseMiscPresentControlProcessingOverload ||
+		ies[1].Value.TimeToWait == nil || ies[1].Value.TimeToWait.Value != ngapType.TimeToWaitPresentV1s {
+		t.Fatalf("NG SETUP FAILURE decoded as %+v", ies)
+	}
+	if b, err := ngap.Encoder(*pdu); err != nil || !bytes.Equal(b, ngSetupFailure) {
+		t.Fatalf("re-encoded %x (%v), written %x", b, err, ngSetupFailure)
 	}
 }
